@@ -25,7 +25,8 @@
    Defects = the set of AS-IS behaviours of the code that are switched on; {} is the repaired
    design.  Each name is one code site:
      "syncOpenNoWake"  SyncCrazyflie._disconnected does not wake a pending open_link
-     "pingSelfJoin"    Latency.stop joins the ping thread even when it IS the ping thread
+     "stopJoins"       Latency.stop joins the ping thread (from the disconnected callback)
+     "pingSelfJoin"    ... even when the caller IS the ping thread (only with "stopJoins")
      "sendNoFinally"   send_packet does not release _send_lock when an exception passes through
      "sendReread"      send_packet tests self.link and then reads it again to use it
      "dispReread"      the dispatcher tests self.cf.link and then reads it again to use it
@@ -34,7 +35,9 @@
      "updDoubleRelease" _ParamUpdater.run releases wait_lock although _ParamUpdater.close() (disconnected) may have
                        force-released it in between: RuntimeError, the updater thread dies
      "dispStalePk"     the dispatcher handles a packet it took from a driver object that has been replaced meanwhile
-     "staleFetcher"    a TocFetcher of a failed attempt stays registered: next attempt fires connected twice
+     "staleFetcher"    a TocFetcher of a failed attempt stays registered and takes part in the next attempt (connected
+                       twice).  Off = the fetcher remembers cf.link at start() and every callback first reads cf.link
+                       (one more visible read): not its link -> it unregisters itself and returns
      "openReread"      open_link stores the driver in self.link and reads self.link again to test it
      "errInSender"     a link error reported synchronously from link.send_packet is handled in the sending
                        thread, i.e. under _send_lock (fan-out, join of the ping thread included)
@@ -45,7 +48,9 @@ EXTENDS Naturals, Sequences, FiniteSets, TLC
 CONSTANTS P,          \* request/reply rounds driven by the dispatcher chain; reply P completes the tables
           NPar,       \* parameter values fetched through the updater thread (rounds P+1..P+NPar)
           ErFrom,     \* rounds >= ErFrom are sent with expected_reply (one more read of link)
-          TocFrom,    \* rounds TocFrom..P are the parameter TOC download
+          LogStart, LogEnd,  \* the reply of round LogStart starts the log TocFetcher, which handles the replies of rounds
+                             \* LogStart+1..LogEnd (0, 0 = no log table in this configuration)
+          ParStart,   \* the reply of round ParStart starts the parameter TocFetcher (replies ParStart+1..P)
           NAtt,       \* attempts 1..NAtt-1 by the user, attempt NAtt = fault-free epilogue
           MaxFaults,  \* link faults (incl. connect failures) per behaviour
           FaultBy,    \* subset of {"sender", "driver", "cf1", "cf2"}
@@ -90,7 +95,7 @@ Init ==
     /\ g = [state |-> "DISC", link |-> 0, uri |-> 0, att |-> 0, closed |-> {},
             inq |-> [n \in 1..NAtt |-> <<>>], lock |-> "free", initCb |-> TRUE, expect |-> 0,
             reqQ |-> <<>>, waitLock |-> FALSE, lockPat |-> 0, nvals |-> 0, isUpd |-> FALSE, tocOK |-> FALSE,
-            staleF |-> FALSE, pingInst |-> FALSE, stopEvt |-> FALSE,
+            staleLog |-> 0, stalePar |-> 0, fLog |-> 0, fPar |-> 0, pingInst |-> FALSE, stopEvt |-> FALSE,
             sOpen |-> FALSE, sCbs |-> FALSE, sConn |-> "none", sDisc |-> "none",
             nfault |-> 0, faulted |-> {}, pings |-> 0, dead |-> {}, dispStarted |-> FALSE,
             next |-> 1, over |-> {}, uclosed |-> {}, cclosed |-> {}, sret |-> 0, epi |-> FALSE]
@@ -119,8 +124,8 @@ FanDeliver(r) ==
         g1 == [r.g EXCEPT !.over = @ \cup {u}, !.sCbs = FALSE, !.sOpen = IF r.g.sCbs THEN FALSE ELSE @]
         wakeOpen == r.g.sCbs /\ r.g.sConn # "none" /\ ~Has("syncOpenNoWake")
         wakeClose == r.g.sCbs /\ r.g.sDisc # "none"
-    IN IF wakeOpen THEN R(g1, Goto(r.s, "f_sset_c"), h1, r.sp)
-       ELSE IF wakeClose THEN R(g1, Goto(r.s, "f_sset_d"), h1, r.sp)
+    IN IF wakeClose THEN R(g1, SetTop(r.s, F("fan", "f_sset_d", Top(r.s).a, Top(r.s).b)), h1, r.sp)
+       ELSE IF wakeOpen THEN R(g1, Goto(r.s, "f_sset_c"), h1, r.sp)
        ELSE R(g1, Goto(r.s, "f_done"), h1, r.sp)
 
 \* ----------------------------------------------------------------------------------------------
@@ -232,13 +237,14 @@ FanStep(t, f, ch) ==
                              ELSE R(g, Goto(r.s, "f_wrel"), <<>>, {})
       [] f.pc = "f_wrel" ->
             LET g1 == [g EXCEPT !.waitLock = FALSE, !.tocOK = FALSE, !.nvals = 0, !.stopEvt = TRUE] IN
-            IF g.pingInst /\ t = "ping" /\ Has("pingSelfJoin") THEN Raise(t, R(g1, r.s, <<>>, {}))   \* RuntimeError: cannot join current thread
-            ELSE IF g.pingInst /\ t # "ping" THEN R(g1, Goto(r.s, "f_join"), <<>>, {})
+            IF Has("stopJoins") /\ g.pingInst /\ t = "ping" /\ Has("pingSelfJoin")
+            THEN Raise(t, R(g1, r.s, <<>>, {}))   \* RuntimeError: cannot join current thread
+            ELSE IF Has("stopJoins") /\ g.pingInst /\ t # "ping" THEN R(g1, Goto(r.s, "f_join"), <<>>, {})
             ELSE FanDeliver(R([g1 EXCEPT !.pingInst = FALSE], r.s, <<>>, {}))
       [] f.pc = "f_join" -> FanDeliver(R([g EXCEPT !.pingInst = FALSE], r.s, <<>>, {}))
-      [] f.pc = "f_sset_c" -> R([g EXCEPT !.sConn = "set"],
-                                Goto(r.s, IF g.sDisc # "none" THEN "f_sset_d" ELSE "f_done"), <<>>, {})
-      [] f.pc = "f_sset_d" -> R([g EXCEPT !.sDisc = "set"], Goto(r.s, "f_done"), <<>>, {})
+      [] f.pc = "f_sset_d" -> R([g EXCEPT !.sDisc = "set"],
+                                Goto(r.s, IF g.sConn # "none" /\ ~Has("syncOpenNoWake") THEN "f_sset_c" ELSE "f_done"), <<>>, {})
+      [] f.pc = "f_sset_c" -> R([g EXCEPT !.sConn = "set"], Goto(r.s, "f_done"), <<>>, {})
 
 \* --- a single Event.set of the wrapper inside a callback ----------------------------------------
 EvtStep(t, f, ch) == R([g EXCEPT !.sConn = "set"], Goto(stk[t], "x_done"), <<>>, {})
@@ -304,10 +310,10 @@ SyncStep(t, f, ch) ==
 \* --- dispatcher:  f.a = local driver reference / packet being handled, f.b = 1 inside a port callback ---
 FireConnected(r) ==
     LET u  == r.g.uri
-        h1 == IF r.g.staleF THEN <<HCb("connected", u, 0, 0), HCb("connected", u, 1, 0)>>
+        h1 == IF Has("staleFetcher") /\ r.g.stalePar > 0 THEN <<HCb("connected", u, 0, 0), HCb("connected", u, 1, 0)>>
               ELSE <<HCb("connected", u, 1, 0)>>
         startPing == ~(r.g.pingInst /\ Alive("ping"))
-        g1 == [r.g EXCEPT !.expect = P + 1, !.tocOK = TRUE, !.staleF = FALSE,
+        g1 == [r.g EXCEPT !.expect = P + 1, !.tocOK = TRUE, !.stalePar = IF Has("staleFetcher") THEN 0 ELSE @,
                           !.stopEvt = IF startPing THEN FALSE ELSE @, !.pingInst = TRUE,
                           !.sOpen = IF r.g.sCbs THEN TRUE ELSE @]
         sp == IF startPing THEN {"ping"} ELSE {}
@@ -315,16 +321,31 @@ FireConnected(r) ==
        THEN R(g1, SetTop(r.s, F("disp", "d_csset", 0, 1)), r.h \o h1, r.sp \cup sp)
        ELSE R(g1, SetTop(r.s, F("disp", "d_qput", 1, 1)), r.h \o h1, r.sp \cup sp)
 
+\* the TocFetcher link-identity reads (only when "staleFetcher" is off, i.e. the fetchers check cf.link)
+FetchStartRound(pk) == pk >= 1 /\ pk \in {LogStart, ParStart}
+LogRound(pk) == pk \in (LogStart + 1)..LogEnd
+ParRound(pk) == pk \in (ParStart + 1)..P
+NeedsFrl(pk) == ~Has("staleFetcher") /\ (FetchStartRound(pk) \/ (LogStart >= 1 /\ LogRound(pk)) \/ ParRound(pk))
+
+\* the action proper of the handler of reply pk (= g.expect, pk <= P)
+HandlerMain(r, pk) ==
+    LET gg == r.g IN
+    IF pk < P
+    THEN R([gg EXCEPT !.expect = pk + 1],
+           Append(SetTop(r.s, IF ~Has("staleFetcher") /\ pk >= 1 /\ pk = LogStart /\ gg.staleLog > 0
+                              THEN F("disp", "d_slrl", 0, 1) ELSE F("disp", "d_rl1", 0, 1)),
+                  F("send", "s_acq", pk + 1, IF pk + 1 >= ErFrom THEN 1 ELSE 0)), r.h, r.sp)
+    ELSE IF Has("errStateRace") \/ gg.state = "CONN" THEN FireConnected(r)
+    ELSE R(gg, SetTop(r.s, F("disp", "d_rl1", 0, 0)), r.h, r.sp)   \* repaired: the attempt is gone
+
 Handler(r, pk) ==
     LET gg == r.g IN
     IF pk \in 1..P
     THEN IF pk # gg.expect THEN R(gg, SetTop(r.s, F("disp", "d_rl1", 0, 0)), r.h, r.sp)
-         ELSE IF pk < P
-              THEN R([gg EXCEPT !.expect = pk + 1],
-                     Append(SetTop(r.s, F("disp", "d_rl1", 0, 1)),
-                            F("send", "s_acq", pk + 1, IF pk + 1 >= ErFrom THEN 1 ELSE 0)), r.h, r.sp)
-              ELSE IF Has("errStateRace") \/ gg.state = "CONN" THEN FireConnected(r)
-              ELSE R(gg, SetTop(r.s, F("disp", "d_rl1", 0, 0)), r.h, r.sp)   \* repaired: the attempt is gone
+         ELSE IF ~Has("staleFetcher") /\ pk = ParStart + 1 /\ gg.stalePar > 0
+              THEN R(gg, SetTop(r.s, F("disp", "d_srl", pk, 1)), r.h, r.sp)    \* stale parameter fetchers are called first
+         ELSE IF NeedsFrl(pk) THEN R(gg, SetTop(r.s, F("disp", "d_frl", pk, 1)), r.h, r.sp)
+         ELSE HandlerMain(r, pk)
     ELSE IF pk \in (P + 1)..(P + NPar) /\ gg.lockPat = pk
     THEN IF gg.tocOK /\ gg.nvals + 1 = NPar /\ ~gg.isUpd /\ (Has("errStateRace") \/ gg.state = "CONN")
          THEN R([gg EXCEPT !.nvals = @ + 1, !.isUpd = TRUE],
@@ -337,11 +358,13 @@ Handler(r, pk) ==
 \* free or its occupant merely sleeps between two pings (then the new thread stands for both)
 PingSlotFree == stk["ping"] = <<>> \/ (Len(stk["ping"]) = 1 /\ Top(stk["ping"]).pc = "p_sleep")
 WouldConnect(pk) == pk = P /\ pk = g.expect /\ ~(g.pingInst /\ Alive("ping"))
+DirectFire(pk) == WouldConnect(pk) /\ ~NeedsFrl(pk)
 DispEn(t, f, ch) ==
     CASE f.pc = "d_recv" -> \/ ch = "to"
                             \/ /\ ch = "-" /\ g.inq[f.a] # <<>>
-                               /\ (~g.initCb /\ WouldConnect(Head(g.inq[f.a]))) => PingSlotFree
-      [] f.pc = "d_ws" -> ch = "-" /\ (WouldConnect(f.a) => PingSlotFree)
+                               /\ (~g.initCb /\ DirectFire(Head(g.inq[f.a]))) => PingSlotFree
+      [] f.pc = "d_ws" -> ch = "-" /\ (DirectFire(f.a) => PingSlotFree)
+      [] f.pc = "d_frl" -> ch = "-" /\ (WouldConnect(f.a) => PingSlotFree)
       [] OTHER -> ch = "-"
 DispStep(t, f, ch) ==
     LET r == S0(t) IN
@@ -368,6 +391,20 @@ DispStep(t, f, ch) ==
             ELSE IF ~Has("dispStalePk") /\ g.link # f.b
                  THEN R(g, SetTop(r.s, F("disp", "d_rl1", 0, 0)), <<>>, {})     \* repaired: packet of a replaced link is dropped
             ELSE Handler(R(g, r.s, <<>>, {}), f.a)       \* repaired: not INITIALIZED any more -> no transition
+      [] f.pc = "d_srl" -> \* a stale parameter fetcher reads cf.link, sees another link, unregisters itself
+            LET g1 == [g EXCEPT !.stalePar = @ - 1] IN
+            IF g1.stalePar > 0 THEN R(g1, r.s, <<>>, {})
+            ELSE IF NeedsFrl(f.a) THEN R(g1, SetTop(r.s, F("disp", "d_frl", f.a, 1)), <<>>, {})
+            ELSE HandlerMain(R(g1, r.s, <<>>, {}), f.a)
+      [] f.pc = "d_frl" -> \* TocFetcher.start(): remember cf.link;  TocFetcher._new_packet_cb: is it still my link?
+            IF FetchStartRound(f.a)
+            THEN HandlerMain(R(IF f.a = LogStart THEN [g EXCEPT !.fLog = g.link] ELSE [g EXCEPT !.fPar = g.link], r.s, <<>>, {}), f.a)
+            ELSE IF g.link # (IF LogStart >= 1 /\ LogRound(f.a) THEN g.fLog ELSE g.fPar)
+                 THEN R([g EXCEPT !.expect = 0], SetTop(r.s, F("disp", "d_rl1", 0, 0)), <<>>, {})   \* the download stops here
+            ELSE HandlerMain(R(g, r.s, <<>>, {}), f.a)
+      [] f.pc = "d_slrl" -> \* stale log fetchers (registered after Log's own callback) see the log-reset reply
+            LET g1 == [g EXCEPT !.staleLog = @ - 1] IN
+            IF g1.staleLog > 0 THEN R(g1, r.s, <<>>, {}) ELSE R(g1, SetTop(r.s, F("disp", "d_rl1", 0, 0)), <<>>, {})
       [] f.pc = "d_csset" -> R([g EXCEPT !.sConn = "set"], SetTop(r.s, F("disp", "d_qput", 1, 1)), <<>>, {})
       [] f.pc = "d_qput" -> \* request_update_of_all_params: one request_queue.put per parameter
             R([g EXCEPT !.reqQ = Append(@, P + f.a)],
@@ -406,7 +443,7 @@ PingStep(t, f, ch) ==
 OpOfPc(pc) ==
     CASE pc \in {"s_acq"} -> "acq" [] pc \in {"s_rel"} -> "rel"
       [] pc \in {"s_test", "s_nr", "s_use", "e_rl1", "e_rl2", "o_rl", "o_x_rl", "o_x_rl2", "c_rl1", "c_rl2", "c_rl3",
-                 "d_rl1", "d_rl2", "u_rl"} -> "rl"
+                 "d_rl1", "d_rl2", "u_rl", "d_srl", "d_frl", "d_slrl"} -> "rl"
       [] pc \in {"e_wl", "o_wl", "o_x_wl", "c_wl"} -> "wl"
       [] pc \in {"e_rs0", "e_rs1", "e_rs2", "e_rs3", "e_rs4"} -> "rs"
       [] pc \in {"e_ws", "o_ws", "c_ws", "d_ws"} -> "ws"
@@ -490,8 +527,11 @@ Step(t, ch) == En(t, ch) /\ Commit(t, Eff(t, ch))
 \* ----------------------------------------------------------------------------------------------
 Idle(t) == stk[t] = <<>> /\ t \notin g.dead
 CurAtt == g.next - 1
+\* a TocFetcher that was registered and not finished when the previous attempt ended is left behind
+Min2(x) == IF x > 2 THEN 2 ELSE x
 OpenEntry(gg, n) == [gg EXCEPT !.isUpd = FALSE, !.nvals = 0, !.tocOK = FALSE,
-                               !.staleF = IF Has("staleFetcher") /\ gg.expect \in TocFrom..P THEN TRUE ELSE @]
+                               !.staleLog = IF LogStart >= 1 /\ gg.expect \in (LogStart + 1)..LogEnd THEN Min2(@ + 1) ELSE @,
+                               !.stalePar = IF gg.expect \in (ParStart + 1)..P THEN Min2(@ + 1) ELSE @]
 
 \* plain Crazyflie.open_link(n) by the user: the previous attempt is over (as seen by the user)
 UOpenG == ~UseSync /\ Idle("user") /\ g.next < NAtt /\ (g.next = 1 \/ CurAtt \in g.over)
